@@ -9,8 +9,8 @@ namespace {
 
 enum WKind { W_CORO = 0, W_WAIT, W_SYNC, W_CB, W_HASV, W_POLL, W_CBFN, W_NK };
 static const char *wk_names[] = {"coro", "wait", "sync", "cb", "hasv", "poll", "cbfn"};
-enum RKind { R_VAL = 0, R_EXC, R_DROP, R_DESTROY, R_ASYNC, R_ASYNCEXC, R_NK };
-static const char *rk_names[] = {"val", "exc", "drop", "destroy", "async", "asyncexc"};
+enum RKind { R_VAL = 0, R_EXC, R_DROP, R_DESTROY, R_ASYNC, R_ASYNCEXC, R_ASSIGN, R_NK };
+static const char *rk_names[] = {"val", "exc", "drop", "destroy", "async", "asyncexc", "assign"};
 
 // scratch: released count per waiter, kind seen, value seen, subscription path (1 = had to suspend/block, 2 = found ready)
 enum { S_REL = 0, S_KIND = 4, S_VAL = 8, S_PATH = 12 };
@@ -176,6 +176,7 @@ static void scenario(int nw, const int *wk, int rk) {
                     cocls::promise<Counted> q(std::move(p));
                     break;
                 }
+                case R_ASSIGN: p = cocls::promise<Counted>(); break;  // overwriting the promise gives the future up: no-value
                 default: gate_p(); break;  // resumes the async coroutine, whose completion resolves f
             }
         });
@@ -255,7 +256,45 @@ static void callfn_scenario(int rk) {
     vrt_outcome("released-on-thread %ld", (long)s[S_PATH]);
 }
 
+// one awaiter object re-used for several operations in a row: two futures that are already resolved when it registers,
+// then one that is resolved by another thread - every operation must call the member function exactly once
+struct ReuseOwner {
+    int calls = 0;
+    long last = 0;
+    cocls::suspend_point<void> done(cocls::future<Counted> &f) noexcept {
+        Obs o = observe(f);
+        calls++;
+        last = o.kind == 1 ? o.val : -o.kind;
+        return {};
+    }
+};
+static void callfn_reuse_scenario() {
+    {
+        ReuseOwner owner;
+        auto aw = std::make_unique<cocls::call_fn_future_awaiter<&ReuseOwner::done>>(owner);
+        for (int k = 1; k <= 2; k++) {
+            *aw << [k] { return cocls::future<Counted>::set_value(Counted(40 + k)); };
+            VRT_CHECK(owner.calls == k, owner.calls < k ? "future/lost-wakeup" : "future/duplicate-wakeup", "re-used awaiter: %d calls after %d already resolved operations", owner.calls, k);
+            VRT_CHECK(owner.last == 40 + k, "future/wrong-result", "re-used awaiter saw %ld in operation %d", owner.last, k);
+        }
+        cocls::promise<Counted> slot;
+        *aw << [&] { return cocls::future<Counted>([&](cocls::promise<Counted> p) { slot = std::move(p); }); };
+        VRT_CHECK(owner.calls == 2, "future/early-wakeup", "re-used awaiter was called before its third operation was resolved");
+        vstd::thread rt([&] {
+            vrt_label("resolver");
+            slot(Counted(43));
+        });
+        rt.join();
+        VRT_CHECK(owner.calls == 3 && owner.last == 43, owner.calls < 3 ? "future/lost-wakeup" : "future/duplicate-wakeup", "re-used awaiter: %d calls after three operations (last value %ld)", owner.calls,
+                  owner.last);
+        aw.reset();
+    }
+    VRT_CHECK(Counted::live() == 0, "future/value-lifetime", "%ld Counted objects alive at the end", (long)Counted::live());
+    vrt_outcome("ok");
+}
+
 VRT_REGISTER(reg_wake) {
+    vrt::add("wake1_callfn_reuse", [] { callfn_reuse_scenario(); });
     for (int rk = 0; rk <= R_DESTROY; rk++) vrt::add(std::string("wake1_callfn_") + rk_names[rk], [=] { callfn_scenario(rk); });
     for (int rk = 0; rk < R_NK; rk++) {
         // one waiter: every kind
